@@ -368,6 +368,18 @@ def template_scope(q):
     return locals_, local_use, rel_use
 
 
+def _all_quotes(nodes):
+    for n in nodes:
+        if isinstance(n, Quote):
+            yield n
+        elif isinstance(n, If):
+            yield from _all_quotes(n.then)
+            yield from _all_quotes(n.els)
+        elif isinstance(n, Match):
+            for _, b in n.arms:
+                yield from _all_quotes(b)
+
+
 def classify_names(q, rel, locals_, local_use):
     """classify every identifier occurrence of a template; returns [(name, class, line)]"""
     t = q.toks
@@ -617,6 +629,46 @@ def gen_inventory(src):
             vis_rows.append((rel, nm, h["vis"]))
     L += ["/-- every declared item that carries a generated name: (file, name interpolation, visibility expression) -/",
           "def itemVisibility : List (String × String × String) := [" + ", ".join(f'({lean_str(r)}, {lean_str(n)}, {lean_str(v)})' for r, n, v in vis_rows) + "]", ""]
+    # --- forwarding methods of `extend_common`: fn NAME(..) { self.inner.CALLED(ARGS) }
+    forwarders = []
+    mt = src.toks("feature/iter/mod.rs")
+    fnd = find_fn(mt, "extend_common")
+    if not fnd:
+        err("feature/iter/mod.rs", 1, "fn extend_common not found")
+    for n in [x for x in _all_quotes(parse_block(fnd[1], "feature/iter/mod.rs"))]:
+        t = n.toks
+        i = 0
+        while i < len(t):
+            if t[i].text == "fn" and t[i + 1].kind == "ident":
+                name = t[i + 1].text
+                j = i + 2
+                while t[j].text != "(":
+                    j += 1
+                pe = match_close(t, j)
+                params = [text_of(x).split(" :")[0].replace("& mut ", "").replace("& ", "").replace("mut ", "").strip() for x in split_top(t[j + 1:pe], ",")]
+                params = [x for x in params if x not in ("self", "")]
+                k = pe
+                while t[k].text != "{":
+                    k += 1
+                be = match_close(t, k)
+                body = [x for x in t[k + 1:be]]
+                # drop a leading `use …;`
+                while body and body[0].text == "use":
+                    e = 0
+                    while body[e].text != ";":
+                        e += 1
+                    body = body[e + 1:]
+                bt = text_of(body)
+                m = re.fullmatch(r"self . inner . (\w+) \((.*)\)((?: \. \w+)*)", bt)
+                if not m:
+                    err("feature/iter/mod.rs", t[i].line, f"forwarder `{name}` is not of the form self.inner.method(args): `{bt}`")
+                args = [a.strip() for a in m.group(2).split(",") if a.strip()]
+                forwarders.append((name, m.group(1), " ".join(params), " ".join(args), m.group(3).replace(" ", "")))
+                i = be
+            i += 1
+    L += ["/-- the forwarding methods of `extend_common`: (method, method called on `self.inner`, parameters, arguments passed, projection) -/",
+          "def forwarders : List (String × String × String × String × String) := [" +
+          ", ".join(f'({lean_str(a)}, {lean_str(b)}, {lean_str(c)}, {lean_str(d)}, {lean_str(e)})' for a, b, c, d, e in forwarders) + "]", ""]
     L += ["/-- associated types declared by the trait impls: (file, name, type) -/",
           "def assocTypes : List (String × String × String) := [" + ", ".join(f'({lean_str(r)}, {lean_str(n)}, {lean_str(v)})' for r, n, v in assoc) + "]", ""]
     L += ["/-- per feature key: the normalised header of its item in every template branch -/",
